@@ -611,3 +611,101 @@ Qed.
 Lemma pinned_two_true_lemma :
   exists is s, sched pinned_step (start_state 2) is = Some s /\ all_returned s = true /\ trues s = 2%nat.
 Proof. exists [0; 1; 0; 1]%nat. eexists. repeat split. Qed.
+
+(* ---- C05 at the granularity of the LTS: the critical section of hit is one step ------------ *)
+Fixpoint stamps_ok (l : list (Z * Z)) : Prop :=
+  match l with
+  | [] => True
+  | (s1, t1) :: r =>
+      0 <= t1 /\
+      (match r with (s2, t2) :: _ => s1 = s2 + 1 /\ t2 <= t1 | [] => s1 = 0 end) /\
+      stamps_ok r
+  end.
+
+Definition stamp_of (x : Z) (l : list (Z * Z)) : option Z :=
+  match find (fun p => fst p =? x) l with Some (_, t) => Some t | None => None end.
+
+Record inv_stamps (s : st) : Prop := {
+  ist_ok : stamps_ok (stamps s);
+  ist_head : match stamps s with (s1, t1) :: _ => s1 = seq s - 1 /\ t1 <= now s | [] => seq s = 0 end;
+  ist_now : 0 <= now s;
+  ist_entered : Forall (fun e => exists t, stamp_of (fst e) (stamps s) = Some t /\ t <= snd e /\ snd e <= now s) (entered s);
+  ist_targ : Forall (fun x => exists t, stamp_of x (stamps s) = Some t) (targ s) }.
+
+Lemma stamp_of_cons x y t l : stamp_of x ((y, t) :: l) = if y =? x then Some t else stamp_of x l.
+Proof. unfold stamp_of. cbn. destruct (y =? x); reflexivity. Qed.
+
+Lemma in_remove1 x y l : In x (remove1 y l) -> In x l.
+Proof.
+  induction l as [|z tl IH]; cbn; [tauto|]. destruct (y =? z); [intros H; right; exact H|].
+  intros [->|H]; [left; reflexivity | right; apply IH, H].
+Qed.
+
+Lemma inv_stamps_step c s l s' : inv_stamps s -> step c s l = Some s' -> inv_stamps s'.
+Proof.
+  intros [O Hd N E T] H.
+  destruct l eqn:EL;
+  try (step_cases H; norm_guards; constructor; cbn [stamps seq now entered targ] in *; try assumption; try lia; fail).
+  - (* Advance *) step_cases H; norm_guards; constructor; cbn [stamps seq now entered targ] in *; try assumption; try lia.
+    + destruct (stamps s) as [|[s1 t1] r]; [exact Hd | lia].
+    + eapply Forall_impl; [|exact E]. intros e (t & A & B & C). exists t. repeat split; try assumption; lia.
+  - (* AssignSeq *) step_cases H; constructor; cbn [stamps seq now entered targ] in *; try assumption; try lia.
+    + cbn. split; [lia|]. split; [|exact O]. destruct (stamps s) as [|[s1 t1] r]; [lia | lia].
+    + eapply Forall_impl; [|exact E]. intros e (t & A & B & C). exists t. rewrite stamp_of_cons.
+      destruct (seq s =? fst e) eqn:Q; [|repeat split; assumption].
+      (* a transport entry for the sequence number being assigned cannot exist yet *)
+      apply Z.eqb_eq in Q. exfalso.
+      assert (forall l x t0, stamps_ok l -> stamp_of x l = Some t0 ->
+                match l with (s1, _) :: _ => x <= s1 | [] => False end) as K.
+      { induction l0 as [|[s1 t1] r IHr]; intros x t0 Ok F; [discriminate|].
+        rewrite stamp_of_cons in F. destruct (s1 =? x) eqn:Q2; [apply Z.eqb_eq in Q2; lia|].
+        cbn in Ok. destruct Ok as (_ & O2 & O3). specialize (IHr x t0 O3 F).
+        destruct r as [|[s2 t2] r2]; [contradiction | lia]. }
+      specialize (K (stamps s) (fst e) t O A). destruct (stamps s) as [|[s1 t1] r]; [contradiction | lia].
+    + constructor.
+      * exists (now s). rewrite stamp_of_cons, Z.eqb_refl. reflexivity.
+      * eapply Forall_impl; [|exact T]. intros x (t & A). rewrite stamp_of_cons.
+        destruct (seq s =? x); eauto.
+  - (* TargeterOk *) step_cases H; norm_guards; constructor; cbn [stamps seq now entered targ] in *; try assumption.
+    + constructor; [|exact E]. cbn [fst snd].
+      match goal with M : memz _ (targ s) = true |- _ => apply memz_In in M; rename M into HM end.
+      rewrite Forall_forall in T. destruct (T _ HM) as (t & A). exists t. split; [exact A|]. split; [|lia].
+      (* the stamp is not later than now: all stamps are <= head <= now *)
+      assert (forall l x t0, stamps_ok l -> stamp_of x l = Some t0 ->
+                match l with (_, t1) :: _ => t0 <= t1 | [] => False end) as K.
+      { induction l0 as [|[s1 t1] r IHr]; intros x t0 Ok F; [discriminate|].
+        rewrite stamp_of_cons in F. destruct (s1 =? x); [injection F as <-; lia|].
+        cbn in Ok. destruct Ok as (_ & O2 & O3). specialize (IHr x t0 O3 F).
+        destruct r as [|[s2 t2] r2]; [contradiction | lia]. }
+      specialize (K (stamps s) _ t O A). destruct (stamps s) as [|[s1 t1] r]; [contradiction | lia].
+    + rewrite Forall_forall in *. intros x Hx. apply T. eapply in_remove1, Hx.
+  - (* TargeterFail *) step_cases H; norm_guards; constructor; cbn [stamps seq now entered targ] in *; try assumption;
+      rewrite Forall_forall in *; intros x Hx; apply T; eapply in_remove1, Hx.
+Qed.
+
+Lemma inv_stamps_init c : inv_stamps (init c).
+Proof. constructor; cbn; auto; try lia. Qed.
+
+Lemma reach_stamps c s : reachable c s -> inv_stamps s.
+Proof.
+  intros (ls & H). eapply (run_invariant c inv_stamps); [apply inv_stamps_init | | exact H].
+  intros; eapply inv_stamps_step; eassumption.
+Qed.
+
+(* sequence order and timestamp order agree *)
+Lemma stamps_ordered_lemma l : stamps_ok l -> forall s1 t1 s2 t2,
+  In (s1, t1) l -> In (s2, t2) l -> s1 < s2 -> t1 <= t2.
+Proof.
+  induction l as [|[sa ta] r IH]; intros Ok s1 t1 s2 t2 I1 I2 Lt; [destruct I1|].
+  cbn in Ok. destruct Ok as (O1 & O2 & O3).
+  assert (forall x t, In (x, t) r -> x < sa /\ t <= ta) as Below.
+  { clear -O2 O3. revert sa ta O2. induction r as [|[sb tb] r2 IHr]; intros sa ta O2 x t Hin; [destruct Hin|].
+    destruct O2 as (-> & Le). cbn in O3. destruct O3 as (_ & O4 & O5).
+    destruct Hin as [E|Hin]; [injection E as -> ->; lia|].
+    destruct (IHr O5 sb tb O4 x t Hin). lia. }
+  destruct I1 as [E1|I1], I2 as [E2|I2].
+  - injection E1 as -> ->. injection E2 as -> ->. lia.
+  - injection E1 as -> ->. destruct (Below _ _ I2). lia.
+  - injection E2 as -> ->. destruct (Below _ _ I1). lia.
+  - eapply IH; eassumption.
+Qed.
